@@ -111,6 +111,7 @@ def note(st, r):
     d['rotated:' + ('yes' if r['angle'] else 'no')] += 1
     if r.get('atmvol') is not None: d['atmosphere_volume:%g' % r['atmvol']] += 1
     if r.get('extra_precision'): d['file:extra-precision'] += 1
+    if r.get('rconvention') is not None and r['rconvention'] != r['convention']: d['reconstructed-with-another-convention'] += 1
 
 
 def one_case(ctx, st, recipe, exe_line=None):
@@ -212,7 +213,7 @@ def run(ctx):
     flags = witness_flags(ctx)
     ctx.extra['recorded_defects_present'] = flags
     ctx.log('recorded defects present in the tree under test: %r' % flags)
-    if ctx.thorough: sweep(ctx, exe, st, 1500, 3000, flags)
+    if ctx.thorough: sweep(ctx, exe, st, 3000, 8000, flags)
     else: sweep(ctx, exe, st, 160, 400, flags)
     ctx.extra['input_distribution'] = dict(sorted(st.dist.items()))
     ctx.extra['oracle_totals'] = dict(st.tot)
